@@ -17,14 +17,21 @@ type CodeWriter struct {
 	pendings []rune
 }
 
-// WriteString writes a string to the buffer
-func (cw *CodeWriter) WriteString(s string) {
-	cw.flushPending()
+// emit appends text to the buffer and keeps the source mapper's generated
+// position in step with it. Every write to the buffer goes through emit or
+// WriteRune, including layout whitespace and comments.
+func (cw *CodeWriter) emit(s string) {
 	cw.Builder.WriteString(s)
 	if cw.Mapper == nil {
 		return
 	}
 	cw.Mapper.AdvanceString(s)
+}
+
+// WriteString writes a string to the buffer
+func (cw *CodeWriter) WriteString(s string) {
+	cw.flushPending()
+	cw.emit(s)
 }
 
 // WriteRune writes a rune to the buffer
